@@ -441,6 +441,22 @@ def batch_grid(v=(1, 2)):
         else:
             req["count"] = 0
         steps.append({"label": "batch/%s" % variant, "req": req})
+    # identifier-less items behind an item that locates / reads / stores exactly one canary
+    # object (whatever the server takes for the ID placeholder then, the answers and the log stay
+    # free of that object's bytes)
+    from vlib import hist
+    firsts = [("locate-%s" % nm, {"op": "Locate", "attrs": [["Name", "c20-" + nm]]})
+              for nm in ("sym-active", "sym-preactive", "secret", "opaque", "split", "priv", "hmac")]
+    firsts += [("get-secret", {"op": "Get", "uid": "$u:2"}), ("register", None),
+               ("locate-all", {"op": "Locate"}), ("locate-none", {"op": "Locate", "attrs": [["Name", "c20-nobody"]]})]
+    for fname, first in firsts:
+        for op in hist.PLACEHOLDER_OPS:
+            if op in ("Encrypt", "MAC", "Sign") and tuple(v) < (1, 2):
+                continue
+            n += 1
+            items = [copy.deepcopy(first) if first else regk(n), hist.placeholder_item(op, v)]
+            steps.append({"label": "batch/placeholder-after-%s" % fname.split("-")[0],
+                          "req": {"v": list(v), "items": items, "cont": "CONTINUE"}})
     return [history("batch-%d.%d#%d" % (v[0], v[1], i // 40), steps[i:i + 40], v)
             for i in range(0, len(steps), 40)]
 
